@@ -125,6 +125,17 @@ def gen_case(rng):
         rng.shuffle(order)
     listed = [listed[i] for i in order]
     ids = [ids[i] for i in order]
+    # one row (never the last, which the importer samples) refers to a label that does not
+    # occur in its frame: that node simply has no pixels; nothing else may be affected
+    if n >= 2 and rng.random() < 0.1:
+        j = rng.randrange(n - 1)
+        t_j = listed[j][0]
+        present = set(int(x) for x in np.unique(src[t_j]))
+        absent = [v for v in range(1, 12) if v not in present
+                  and all(not (tt == t_j and ll == v) for tt, ll in listed)]
+        if absent:
+            listed[j] = (t_j, rng.choice(absent[:3]))
+            scheme = scheme + "+absent-label"
     # the LAST row refers to its label by its own id while other rows do not
     if n >= 2 and rng.random() < 0.2 and listed[-1][1] not in ids[:-1] and listed[-1][1] != 0:
         ids[-1] = int(listed[-1][1])
@@ -192,7 +203,9 @@ def judge_import(case, how="array", prev=None):
     parent = {v: u for u, v in case["edges"]}
     rows = []
     for n, (t, lab) in zip(ids, listed):
-        px = np.argwhere(src[t] == lab)[0]
+        hits = np.argwhere(src[t] == lab)
+        # (a row whose label does not occur in its frame gets an arbitrary recorded position)
+        px = hits[0] if len(hits) else np.zeros(src.ndim - 1, dtype=int)
         sc = [1.0] * nd if scale is None else scale[1:]
         row = {"time": t, "id": n, "parent_id": parent.get(n, -1), "seg_id": lab}
         for a, p, s in zip(axes, px, sc):
@@ -339,6 +352,9 @@ def run_shard(spec):
         if case["scheme"].startswith("dtype-max"):
             acc["counters"]["cases-id-at-dtype-max"] = \
                 acc["counters"].get("cases-id-at-dtype-max", 0) + 1
+        if "+absent-label" in case["scheme"]:
+            acc["counters"]["cases-row-with-absent-label"] = \
+                acc["counters"].get("cases-row-with-absent-label", 0) + 1
         if case["scheme"].endswith("+last-identity"):
             acc["counters"]["cases-last-row-identity"] = \
                 acc["counters"].get("cases-last-row-identity", 0) + 1
